@@ -137,6 +137,14 @@ CHECKS.update({
             "DESIGN.md section 5 C13"),
 })
 
+CHECKS.update({
+    "C15": ("other",
+            "real generators and interpreter executed with set iteration order as a symbolic input (ranked frozenset/set injected into dagrt's module globals, one z3 rank per element, forks where two elements are compared); output digest equal on all order paths; history clause concrete; replay by permuted statement lists and a PYTHONHASHSEED scan in subprocesses",
+            "Bounded symbolic checking over iteration orders: for each program, generator (Python, Fortran) / interpreter and universe (statement objects+ids | variable names), every distinguishable iteration order of every iterated set is a path (z3 prunes inconsistent rank comparisons); the emitted text / event trace must have the same digest on all of them. Separate concrete clause: P generated after an unrelated Q in one process. The process-global ArrayType index counter is a listed known finding.",
+            "Trusted: z3, ranked containers. Orders = one global rank per universe; statement universe for phases of <=5 statements; set displays/comprehensions not intercepted (listed); <=150 (thorough 400) order paths per exploration else incomplete.",
+            "DESIGN.md section 5 C15"),
+})
+
 NOT_APPLICABLE = {
 }
 
